@@ -144,6 +144,12 @@ class BuiltinMixin:
         if isinstance(v, VFunc) and v.kind in ("pydict", "pylist"):
             yield V(INT, self.I(len(v.data))), st
             return
+        if isinstance(v, ObjState) or (isinstance(v, V) and v.sort.kind == "rec"):
+            clsname = v.cls if isinstance(v, ObjState) else v.sort.name
+            mod_, cls_ = self.class_of_record(clsname)
+            if mod_ is not None and f"{cls_}.__len__" in mod_.funcs:
+                yield from self.call_function(mod_, f"{cls_}.__len__", [args[0]], {}, st)
+                return
         if hasattr(self, "dict_len"):
             r = self.dict_len(v, st)
             if r is not None:
@@ -657,16 +663,50 @@ class BuiltinMixin:
         raise Unsupported(f"str.{name} on a symbolic string")
 
     def join_fold(self, sep: VSeq, parts: VSeq, st):
-        """"sep".join(parts): lengths and cell widths via prefix sums over the part list (single-view lists)."""
+        """"sep".join(parts) for a list of strings: a deterministic uninterpreted function of the list
+        (array, bounds) with its length and cell width given by prefix sums over the parts; a one-element
+        list joins to that element (trusted built-in contract of str.join)."""
         n = parts.length()
-        res = self.fresh(STR, "joined", st)
-        # recorded so that contracts can speak about it through spec function joined_len / parts
-        dt = self.U.z3sort(STR)
+        sdt = self.U.z3sort(STR)
+        lsep = seqs.lit_value(sep)
+        if lsep is None:
+            raise Unsupported("join with a symbolic separator")
+        facts: list = []
+        arr, ln = seqs.materialize(parts, facts, sdt)
+        for f in facts:
+            st.assume(f)
+        lo = z3.IntVal(0)
         if len(parts.pieces) == 1 and parts.pieces[0].kind == "view":
-            p = parts.pieces[0]
-            jl = z3.Function("joinlen", p.a.sort(), z3.IntSort(), z3.IntSort())
-            jc = z3.Function("joincells", p.a.sort(), z3.IntSort(), z3.IntSort())
-            seplen = sep.length()
-            st.assume(res.length() == jl(p.a, p.hi) - jl(p.a, p.lo) + z3.If(n > 0, (n - 1) * seplen, 0))
-            st.assume(seqs.cells(res, []) == jc(p.a, p.hi) - jc(p.a, p.lo) + z3.If(n > 0, (n - 1) * seqs.cells(sep, []), 0))
+            arr, lo, ln = parts.pieces[0].a, parts.pieces[0].lo, parts.pieces[0].hi
+        tag = lsep.encode("utf-8").hex() or "empty"
+        jf = z3.Function(f"joinstr_{tag}", arr.sort(), z3.IntSort(), z3.IntSort(), sdt)
+        jl = z3.Function("joinlen", arr.sort(), z3.IntSort(), z3.IntSort())
+        jc = z3.Function("joincells", arr.sort(), z3.IntSort(), z3.IntSort())
+        t = jf(arr, lo, ln)
+        res = self.from_term(t, STR, st)
+        marker = z3.Bool("joinfacts!" + str(z3.simplify(t).get_id()))
+        if any(f.eq(marker) for f in st.pc):
+            return res
+        st.pc.append(marker)
+        cnt = z3.simplify(ln - lo)
+        seplen = sep.length()
+        st.assume(res.length() == jl(arr, ln) - jl(arr, lo) + z3.If(cnt > 0, (cnt - 1) * seplen, 0))
+        st.assume(seqs.cells(res, []) == jc(arr, ln) - jc(arr, lo) + z3.If(cnt > 0, (cnt - 1) * seqs.cells(sep, []), 0))
+        k = z3.Int(fresh_name("jk"))
+        e0 = arr[lo]
+        st.assume(z3.Implies(cnt == 1, z3.And(sdt.len(t) == sdt.len(e0),
+                                              z3.ForAll([k], z3.Implies(z3.And(0 <= k, k < sdt.len(e0)), sdt.arr(t)[k] == sdt.arr(e0)[k]),
+                                                        patterns=[sdt.arr(t)[k]]))))
+        # sum-congruence instance: a one-element join has the cell width of that element
+        st.assume(z3.Implies(cnt == 1, seqs.pcell(sdt.arr(t), sdt.len(t)) - seqs.pcell(sdt.arr(t), 0)
+                             == seqs.pcell(sdt.arr(e0), sdt.len(e0)) - seqs.pcell(sdt.arr(e0), 0)))
+        st.assume(z3.Implies(cnt <= 0, sdt.len(t) == 0))
+        # unfolding of the length sum at the ends (enough for append / single-piece reasoning)
+        st.assume(z3.Implies(cnt >= 1, jl(arr, ln) == jl(arr, ln - 1) + sdt.len(arr[ln - 1])))
+        st.assume(z3.Implies(cnt >= 1, jl(arr, lo + 1) == jl(arr, lo) + sdt.len(arr[lo])))
         return res
+
+    def bi_joined(self, args, kwargs, st):
+        """spec: "".join(list of str) — the same function the code's join denotes"""
+        parts = self.as_seq(args[0], st, "joined()")
+        yield self.join_fold(seqs.lit_str(""), parts, st), st
